@@ -129,7 +129,7 @@ func VerifC08Commands() {
 	sl := vC08SplitLens[vLen("splitlen", 0, len(vC08SplitLens)-1)]
 	cfg := &Config{SplitLen: sl, Flood: true, QuitMessage: vArg("quitmsg")}
 	w := vNewWire()
-	conn := &Conn{cfg: cfg, out: make(chan string, 64)}
+	conn := vBareConn(cfg, false)
 	conn.io = bufio.NewReadWriter(bufio.NewReader(w), bufio.NewWriter(w))
 	verb, anyVerb := vC08Call(conn)
 	lines := vDrain(conn)
